@@ -12,6 +12,7 @@ FAMILIES = {
     "strfn": "harness.strfn",
     "step": "harness.step",
     "api": "harness.api",
+    "delivery": "harness.delivery",
 }
 
 
